@@ -156,7 +156,7 @@ func Scribble(rs []*result.CertRevocationResult) {
 }
 
 // IsHTTPKind reports whether a URL kind is served over the simulated network.
-func IsHTTPKind(k string) bool { return k == "http" || k == "HTTP" || k == "httpq" }
+func IsHTTPKind(k string) bool { return k == "http" || k == "HTTP" || k == "httpq" || k == "httpc" }
 
 // Outcome is everything observed from one execution.
 type Outcome struct {
@@ -478,6 +478,16 @@ func RouteOf(route string) (pos int, typ string, slot int, part string, ok bool)
 	if i := strings.Index(path, "?partition="); i >= 0 {
 		// query-distinguished distribution points share slot 0's host
 		fmt.Sscanf(path[i+len("?partition="):], "%d", &slot)
+	}
+	if len(path) >= 4 && strings.EqualFold(path[:4], "base") && path[:4] != "base" {
+		// case-distinguished distribution points share slot 0's host: the slot is
+		// the position of the upper-case letter
+		for i := 0; i < 4; i++ {
+			if path[i] < 'a' {
+				slot = i
+			}
+		}
+		path = "base" + path[4:]
 	}
 	switch {
 	case strings.HasPrefix(path, "base"):
